@@ -112,6 +112,7 @@ func run(r *lib.Run) {
 	partARandom(r, rp)
 	partACache(r, rp)
 	okB := partB(r, rp)
+	directedC19(r, rp)
 	rp.flush()
 
 	exA := r.Counter("A_exhaustive_listing_pairs") == 225 && r.Counter("A_exhaustive_subset_pairs") == 49
